@@ -465,6 +465,45 @@ theorem attempt_slot_returned_on_every_exit (exits : List AttemptExit) : attempt
   | nil => rfl
   | cons e es ih => simpa [attemptSlots] using ih
 
+/-! ## the TCP engine: token class = slab class; every frame has its own budget -/
+
+/-- **Tokens always come home.**  With the token class equal to the slab
+class (both `length > tcpSmallFrame`), every frame length served on an idle
+engine (all tokens at home, at least one per class) takes and returns a token
+of the same class: no `put` ever blocks and the tokens are where they were —
+so `Quiesced` holds again after any sequence of frames. -/
+theorem tcp_tokens_come_home (smallFrame : Nat) (cap : Tokens) (hs : 0 < cap.small) (hl : 0 < cap.large)
+    (lengths : List Nat) :
+    lengths.foldl (fun (t : Option Tokens) len =>
+      t.bind (fun t => serveFrameTokens (tcpLarge smallFrame) (tcpLarge smallFrame) cap t len)) (some cap) = some cap := by
+  induction lengths with
+  | nil => rfl
+  | cons len rest ih =>
+    simp only [List.foldl_cons, Option.bind_some]
+    have : serveFrameTokens (tcpLarge smallFrame) (tcpLarge smallFrame) cap cap len = some cap := by
+      unfold serveFrameTokens
+      cases h : tcpLarge smallFrame len
+      · have h0 : cap.small ≠ 0 := by omega
+        have h1 : ¬ (cap.small - 1 + 1 > cap.small) := by omega
+        have h2 : cap.small - 1 + 1 = cap.small := by omega
+        simp [h0, h1, h2]
+      · have h0 : cap.large ≠ 0 := by omega
+        have h1 : ¬ (cap.large - 1 + 1 > cap.large) := by omega
+        have h2 : cap.large - 1 + 1 = cap.large := by omega
+        simp [h0, h1, h2]
+    rw [this]; exact ih
+
+/-- the compiled `tokens` and `largeClass` agree on every frame length 0..65535 -/
+theorem tcp_classes_agree_in_tree : SdnsVerif.Gen.C11.tcp_class_mismatches = [] := by decide
+
+/-- **A later frame is not charged for an earlier one.**  Frames on one
+connection are served serially; frame `i+1`'s prefix is read no earlier than
+frame `i` finished, so whatever frame `i` took, frame `i+1` still has its
+whole QueryTimeout when it is served. -/
+theorem pipelined_frame_has_full_budget (finishedPrev prefixRead qto : Nat) (h : finishedPrev ≤ prefixRead) :
+    finishedPrev + qto ≤ frameDeadline prefixRead qto ∧ frameDeadline prefixRead qto - prefixRead = qto := by
+  unfold frameDeadline; omega
+
 /-! ## Resolver.groupLookup: a failed leader's error stays local -/
 
 /-- **Request-local leader errors are not handed to followers.**  A caller
@@ -563,6 +602,12 @@ example : (({} : Worker).run [.quick 1, .quick 2, .slow 3]).sent = [1, 2] ∧
     (({} : Worker).run [.quick 1, .quick 2, .slow 3]).held = [] := by decide
 
 example : attemptSlots 0 [.contextDead, .breakerOpen, .resultDropped, .resultSent] = 0 := by decide
+-- a frame of exactly tcpSmallFrame bytes is a small one for both sides; 2049 is large for both
+example : serveFrameTokens (tcpLarge 2048) (tcpLarge 2048) ⟨4, 2⟩ ⟨4, 2⟩ 2048 = some ⟨4, 2⟩ ∧
+    serveFrameTokens (tcpLarge 2048) (tcpLarge 2048) ⟨4, 2⟩ ⟨4, 2⟩ 2049 = some ⟨4, 2⟩ := by decide
+-- (what a disagreement on the boundary would do: a large token taken, a small one put back into a full channel)
+example : serveFrameTokens (fun l => l ≥ 2048) (tcpLarge 2048) ⟨4, 2⟩ ⟨4, 2⟩ 2048 = none := by decide
+example : frameDeadline 9000 1200 = 10200 := by decide
 -- quota 2: two admitted, two shed, both leave: the counter is back at zero and the zone is open again
 example :
     let z := [ZOp.enter, .enter, .enter, .enter, .leave, .leave].foldl (ZL.step 2) {}
